@@ -25,6 +25,7 @@ import (
 	"bufio"
 	"bytes"
 	"context"
+	"encoding/hex"
 	"errors"
 	"fmt"
 	"hash/fnv"
@@ -262,6 +263,40 @@ type replNode struct {
 	arm  map[string]bool // keys whose next replicated apply fails once (survives a restart of the node)
 	mgr  *replication.Manager
 	addr string
+	// reslow: key -> a RE-application of it (it was applied before in this run of the replica) sleeps that many ms
+	reslow map[string]int
+	// sampler of the applied sequence the replica reports (one per run of the replica): it must never decrease
+	stopMono chan struct{}
+	monoMu   sync.Mutex
+	regress  string
+}
+
+func (n *replNode) watchApplied() {
+	stop := make(chan struct{})
+	n.stopMono = stop
+	mgr := n.mgr
+	go func() {
+		var hi uint64
+		for {
+			select {
+			case <-stop:
+				return
+			default:
+			}
+			_, _, _, last, _ := mgr.GetNodeInfo()
+			if last < hi {
+				n.monoMu.Lock()
+				if n.regress == "" {
+					n.regress = fmt.Sprintf("%s:%d->%d", n.name, hi, last)
+				}
+				n.monoMu.Unlock()
+			}
+			if last > hi {
+				hi = last
+			}
+			time.Sleep(300 * time.Microsecond)
+		}
+	}()
 }
 
 // replFailEngine: the replica's engine as the replication manager sees it. One replicated put / delete of an armed key
@@ -275,6 +310,8 @@ type replFailEngine struct {
 	slow    map[string]int           // key -> the next replicated apply of it sleeps that many ms (slowapply)
 	started map[string]chan struct{} // closed when that slow apply has begun
 	log     []string                 // every replicated operation this incarnation of the replica applied successfully, in order
+	reslow  map[string]int
+	done    map[string]bool // keys applied at least once by this incarnation
 }
 
 func replOpTok(kind string, key, value []byte) string {
@@ -286,12 +323,25 @@ func replOpTok(kind string, key, value []byte) string {
 func (f *replFailEngine) record(tok string) {
 	f.mu.Lock()
 	f.log = append(f.log, tok)
+	if f.done == nil {
+		f.done = map[string]bool{}
+	}
+	if ps := strings.SplitN(tok, ":", 3); len(ps) == 3 {
+		if k, err := hex.DecodeString(ps[1]); err == nil {
+			f.done[string(k)] = true
+		}
+	}
 	f.mu.Unlock()
 }
 
 // delay: see `slowapply` — keeps the replica's loop inside its apply handler for a while
 func (f *replFailEngine) delay(key []byte) {
 	f.mu.Lock()
+	if again := f.reslow[string(key)]; again > 0 && f.done[string(key)] {
+		f.mu.Unlock()
+		time.Sleep(time.Duration(again) * time.Millisecond)
+		f.mu.Lock()
+	}
 	ms, ok := f.slow[string(key)]
 	ch := f.started[string(key)]
 	if ok {
@@ -330,6 +380,7 @@ func (f *replFailEngine) PutInternal(key, value []byte) error {
 }
 
 func (f *replFailEngine) DeleteInternal(key []byte) error {
+	f.delay(key)
 	if f.trip(key) {
 		return errors.New("injected transient apply failure")
 	}
@@ -354,15 +405,15 @@ type replFaultClient struct {
 
 type replWorld struct {
 	preloaded int // keys written by `preload` so far
-	r       *runner
-	base    string
-	cfgLine string
-	prim    *replNode
-	reps    map[string]*replNode
-	faults  map[string]*replFaultClient
-	sym     *replSymptoms
-	bg      sync.WaitGroup
-	txSeqs  map[uint64]int // sequence number -> number of entries, for committed multi-entry transactions
+	r         *runner
+	base      string
+	cfgLine   string
+	prim      *replNode
+	reps      map[string]*replNode
+	faults    map[string]*replFaultClient
+	sym       *replSymptoms
+	bg        sync.WaitGroup
+	txSeqs    map[uint64]int // sequence number -> number of entries, for committed multi-entry transactions
 	// replfault bookkeeping
 	blocked  []string
 	failed   []string
@@ -481,6 +532,18 @@ func (w *replWorld) applyCheck(n *replNode) string {
 	return ""
 }
 
+func (w *replWorld) monoOf(n *replNode) string {
+	for _, x := range w.reps {
+		x.monoMu.Lock()
+		r := x.regress
+		x.monoMu.Unlock()
+		if r != "" {
+			return "regressed:" + r
+		}
+	}
+	return "ok"
+}
+
 func (w *replWorld) noteApply(n *replNode) {
 	if p := w.applyCheck(n); p != "" && w.applyProb == "" {
 		w.applyProb = p
@@ -592,7 +655,7 @@ func (w *replWorld) startReplica(name string) string {
 	if n.arm == nil {
 		n.arm = map[string]bool{}
 	}
-	n.fe = &replFailEngine{EngineFacade: e, armed: n.arm}
+	n.fe = &replFailEngine{EngineFacade: e, armed: n.arm, reslow: n.reslow}
 	paddr := w.prim.addr
 	if w.proxy != nil {
 		paddr = w.proxy.addr
@@ -612,6 +675,7 @@ func (w *replWorld) startReplica(name string) string {
 		return "err start " + errTok(err)
 	}
 	n.mgr = m
+	n.watchApplied()
 	return "ok"
 }
 
@@ -626,6 +690,10 @@ func (w *replWorld) stopReplica(name string) string {
 	}
 	res := "ok"
 	w.noteApply(n)
+	if n.stopMono != nil {
+		close(n.stopMono)
+		n.stopMono = nil
+	}
 	done := make(chan struct{})
 	go func() { n.mgr.Stop(); close(done) }()
 	select {
@@ -777,7 +845,7 @@ func (w *replWorld) await(name string) string {
 				if w.applyProb != "" {
 					al = w.applyProb
 				}
-				return fmt.Sprintf("converged %d keys=%d primseq=%d applied=%d flaps=%d %s applylog=%s", okSince.Sub(start).Milliseconds(), len(pm), pseq, n.applied(), flaps, w.sym, al)
+				return fmt.Sprintf("converged %d keys=%d primseq=%d applied=%d flaps=%d %s applylog=%s monotone=%s", okSince.Sub(start).Milliseconds(), len(pm), pseq, n.applied(), flaps, w.sym, al, w.monoOf(n))
 			}
 		} else {
 			if !okSince.IsZero() {
@@ -827,8 +895,8 @@ func (w *replWorld) await(name string) string {
 	if w.applyProb != "" {
 		al = w.applyProb
 	}
-	return fmt.Sprintf("diverged missing=%d wrong=%d extra=%d first=%s primseq=%d applied=%d txat=%d splitat=%d stale=%d rot=%d observed=%d startseq=%d lastack=%d state=%s flaps=%d %s finding=%s applylog=%s",
-		mi, wr, ex, first, pseq, applied, txat, splitat, stale, rot, pv.observedSeq, startSeq, lastAck, state, flaps, w.sym, finding, al)
+	return fmt.Sprintf("diverged missing=%d wrong=%d extra=%d first=%s primseq=%d applied=%d txat=%d splitat=%d stale=%d rot=%d observed=%d startseq=%d lastack=%d state=%s flaps=%d %s finding=%s applylog=%s monotone=%s",
+		mi, wr, ex, first, pseq, applied, txat, splitat, stale, rot, pv.observedSeq, startSeq, lastAck, state, flaps, w.sym, finding, al, w.monoOf(n))
 }
 
 // sharedSeqInWindow: the first sequence number carried by two or more of the first `limit` log entries with sequence >= from
@@ -1021,6 +1089,18 @@ func (w *replWorld) step(ws []string) (out string) {
 			return r
 		}
 		return s // the replica was started again, but its stop had hung
+	case "reslow": // reslow <replica> <key> <ms>: BEFORE join: whenever that replica applies <key> AGAIN in one run, the apply takes <ms>
+		n := w.reps[ws[1]]
+		if n == nil {
+			n = &replNode{name: ws[1], dir: filepath.Join(w.base, "replica-"+ws[1]), addr: "replica-" + ws[1] + ":7", arm: map[string]bool{}}
+			w.reps[ws[1]] = n
+		}
+		if n.reslow == nil {
+			n.reslow = map[string]int{}
+		}
+		ms, _ := strconv.Atoi(ws[3])
+		n.reslow[string(unhx(ws[2]))] = ms
+		return "ok"
 	case "failapply": // failapply <replica> <key>: the next replicated apply of this key on that replica fails once
 		n := w.reps[ws[1]]
 		if n == nil {
@@ -1687,6 +1767,9 @@ func genReplCase(g *gen, w *bufio.Writer, class string, big bool) {
 		n := 20 + g.intn(60)
 		victim := g.intn(n)
 		fmt.Fprintf(w, "failapply a %s\n", hx(replBurstKey(victim)))
+		if victim >= 1 { // the entries in front of the failed one are applied again by the retransmission: make that visible for a while
+			fmt.Fprintf(w, "reslow a %s %d\n", hx(replBurstKey(g.intn(victim))), g.pick(120, 250))
+		}
 		if !late {
 			fmt.Fprintln(w, "join a")
 			fmt.Fprintln(w, "idle a 5000")
